@@ -309,9 +309,15 @@ def main(tier, seed):
         res = {"viol": [], "inconc": [], "st": dict.fromkeys(stats, 0), "shapes": set()}
         src = os.path.join(d, "lib.rs")
         # the gate may reject a signature (a bound we did not anticipate): drop those, they are C05's business
-        for attempt in range(6):
-            open(src, "w").write(PRELUDE + nested_source(nested) + "".join(sig_source(s) for s in sigs) + "}\n")
+        use_nested = True
+        for attempt in range(7):
+            import jsgc
+            nsrc, ncases, nmusts = jsgc.nested_cases(nested) if use_nested else ("", [], {})
+            open(src, "w").write(PRELUDE + nested_source(nested) + nsrc + "".join(sig_source(s) for s in sigs) + "}\n")
             rc, o, e = run([hd, src], timeout=120)
+            if use_nested and re.search(r"LOWERING-ERROR NH\d+::", o):
+                use_nested = False          # the gate wants something else for these holders: leave them out of this batch
+                continue
             bad = set(re.findall(r"LOWERING-ERROR (\w+)::m", o))
             if rc != 0:
                 res["inconc"].append("hirdump failed: " + e[-300:])
@@ -435,6 +441,13 @@ def main(tier, seed):
                     elif es and holds_borrow(s) and len(re.findall(r"\b%sEdges\b" % ol, text)) < 2 and not (
                             b == "kotlin" and re.search(r"&'%s Op" % ol, s.ret) and len(re.findall(r"\bselfEdges\b", text)) >= 3):
                         res["viol"].append((s, "%s computes %sEdges but never hands it to the returned object" % (b, ol)))
+        def nested_sig(holder, method):
+            ns = Sig()
+            ns.holder = holder
+            name, lts, fields = [x for x in nested if x[0] == "N" + holder[2:]][0]
+            ns.text = "pub struct %s<%s> { %s }  fn %s(s: %s<..>) -> &'%s Op" % (name, ", ".join("'" + l for l in lts), ", ".join("%s: %s" % (fn, ty) for fn, ty, _ in fields), method, name, method[1:])
+            return ns
+
         # ---- (d) dynamic: V8 liveness of everything the returned object may borrow from (both JS ABIs)
         import jsgc
         sizes = jsgc.unique_sizes(sigs)
@@ -449,7 +462,9 @@ def main(tier, seed):
             for s in sigs:
                 c, must = jsgc.case_for(s, expected_edges, sizes[s.holder])
                 cases.append(c)
-                musts[s.holder] = must
+                musts[(s.holder, "m")] = must
+            cases += ncases
+            musts.update(nmusts)
             jsgc.write_harness(out, cases)
             rc, o3, e3 = run(["node", "--expose-gc", os.path.join(out, "vf_gc.mjs")], timeout=600)
             if rc != 0 or not o3.strip():
@@ -461,12 +476,12 @@ def main(tier, seed):
             res.setdefault("uncaught", []).extend(rep.get("uncaught", [])[:2])
             collected_unborrowed = 0
             for rec in rep["report"]:
-                s = by_holder[rec["holder"]]
+                s = by_holder.get(rec["holder"]) or nested_sig(rec["holder"], rec.get("method"))
                 if rec.get("harness_error"):
                     res["inconc"].append("GC driver (%s) %s/%s: %s" % (abi, rec["holder"], rec["mode"], rec["harness_error"][:200]))
                     continue
                 res["st"]["gc_calls"] += 1
-                must = musts[rec["holder"]][rec["mode"]]
+                must = musts[(rec["holder"], rec.get("method", "m"))][rec["mode"]]
                 if must and not rec["hasResult"]:
                     res["st"]["gc_calls_without_result_object"] += 1
                     continue
@@ -506,6 +521,9 @@ def main(tier, seed):
             if seen_cat[cat] <= 2:
                 picked.append(v)
         for s, msg in picked:
+            if hasattr(s, "text"):          # nested-struct holder of the dynamic leg
+                chk.violation("b%d_%s" % (bi, s.holder), "`%s`: %s" % (s.text, msg), {"signature": s.text, "dir": toolrun.workdir("c04", "b%d" % bi)})
+                continue
             chk.violation("b%d_%s" % (bi, s.holder), "`%s`: %s" % (sig_source(s).strip().splitlines()[-2].strip(), msg),
                           {"signature": sig_source(s), "declared_bounds": sorted(s.bounds), "implied_bounds": sorted(s.implied), "expected": {k: sorted(v) for k, v in expected_edges(s).items()},
                            "dir": toolrun.workdir("c04", "b%d" % bi)})
